@@ -149,10 +149,10 @@ Proof. vm_compute. repeat split; discriminate. Qed.
 
 Example C09_twoparty_ex_foreign :
   tp_can_accept dk_send_start good1 = true
-  /\ tp_can_accept dk_send_start (mkMsg 8 9 0 None 1 true false 0 12 true) = false      (* other session tag *)
-  /\ tp_can_accept dk_send_start (mkMsg 7 10 0 None 1 true false 0 12 true) = false     (* other protocol id *)
-  /\ tp_can_accept dk_send_start (mkMsg 7 9 5 None 1 true false 0 12 true) = false      (* unknown sender *)
-  /\ tp_can_accept dk_send_start (mkMsg 7 9 0 (Some 0) 1 true false 0 12 true) = false  (* addressed to someone else *)
-  /\ tp_can_accept dk_send_start (mkMsg 7 9 1 None 1 true false 0 12 true) = false      (* own message *)
-  /\ tp_can_accept dk_send_start (mkMsg 7 9 0 None 4 true false 0 12 true) = false.     (* round beyond the last *)
+  /\ tp_can_accept dk_send_start (mkMsg 8 9 0 None 1 true false 0 12 true NoPanic) = false      (* other session tag *)
+  /\ tp_can_accept dk_send_start (mkMsg 7 10 0 None 1 true false 0 12 true NoPanic) = false     (* other protocol id *)
+  /\ tp_can_accept dk_send_start (mkMsg 7 9 5 None 1 true false 0 12 true NoPanic) = false      (* unknown sender *)
+  /\ tp_can_accept dk_send_start (mkMsg 7 9 0 (Some 0) 1 true false 0 12 true NoPanic) = false  (* addressed to someone else *)
+  /\ tp_can_accept dk_send_start (mkMsg 7 9 1 None 1 true false 0 12 true NoPanic) = false      (* own message *)
+  /\ tp_can_accept dk_send_start (mkMsg 7 9 0 None 4 true false 0 12 true NoPanic) = false.     (* round beyond the last *)
 Proof. vm_compute. repeat split. Qed.
